@@ -1441,7 +1441,7 @@ func main() {
 		wg.Add(1)
 		go func(s int) {
 			defer wg.Done()
-			res[s].outs, res[s].err = wb.RunPartitioned("c03case", inputs, declared, 1500, 8*time.Minute)
+			res[s].outs, res[s].err = wb.RunPartitioned("c03case", inputs, declared, 1000, 25*time.Minute)
 			if os.Getenv("VERIF_DEBUG_SLOW") != "" {
 				fmt.Printf("TIMING shard %d done at +%.1fs\n", s, time.Since(tStart).Seconds())
 			}
